@@ -28,8 +28,21 @@ Recs == <<
          F("gene", "a", Rg(1, 3, FALSE, TRUE), << <<"gene", "xx">> >>), F("gene", "g", Rg(3, 6, TRUE, FALSE), << <<"gene", "xx">> >>),
          F("CDS", "c", Cp(Rg(2, 5, FALSE, FALSE)), << <<"product", "pp">>, <<"note", "zz">> >>) >>,
       << RefRec(<< <<0, 8>> >>) >>),
-  Rec("RD", 64, 6, "linear", << >>, << >>)
+  Rec("RD", 64, 6, "linear", << >>, << >>),
+  \* exactly two features, the two fragments of one cut feature (equal key and qualifiers, facing partial ends):
+  \* only driven through gts repair (the fragments share their label)
+  Rec("RE", 70, 6, "linear",
+      << F("gene", "m", Rg(0, 3, FALSE, TRUE), << <<"gene", "zz">> >>), F("gene", "m", Rg(3, 6, TRUE, FALSE), << <<"gene", "zz">> >>) >>, << >>)
 >>
+\* records for the pipeline  gts split L | gts join | gts repair  (forward contiguous features with table-unique
+\* key and qualifiers: the cut features must come back exactly): one lone feature; a source and two genes
+PipeRecs == <<
+  Rec("RF", 76, 6, "linear", << F("gene", "a", Rg(1, 5, FALSE, FALSE), << <<"gene", "abc">> >>) >>, << >>),
+  Rec("RG", 82, 8, "linear", << F("source", "s", Rg(0, 8, FALSE, FALSE), <<>>), F("gene", "a", Rg(1, 6, FALSE, FALSE), << <<"gene", "abc">> >>),
+                                F("CDS", "c", Rg(2, 5, TRUE, FALSE), << <<"product", "pp">> >>) >>, << >>),
+  Rec("RH", 90, 6, "linear", << F("source", "s", Rg(0, 6, FALSE, FALSE), <<>>) >>, << >>)
+>>
+PipeCuts == {"3", "4", "^+2", "5"}
 NR == Len(Recs)
 Streams == UNION {{s \in [1..k -> 1..NR] : \A a, b \in 1..k : a # b => s[a] # s[b]} : k \in 0..MaxStream}
 
@@ -73,12 +86,13 @@ Cmds ==
   \cup {[cmd |-> "search", args |-> <<"-e">> \o (IF nc THEN <<"--no-complement">> ELSE <<>>) \o kp[1] \o <<"@" \o q[1]>>,
          sem |-> [query |-> q[2], key |-> kp[2], props |-> kp[3], nocomp |-> nc]] : q \in Queries, nc \in BOOLEAN, kp \in KeyProps}
 
-All == SetToSeq({<<s, c>> : s \in Streams, c \in {x \in Cmds : x.cmd \in CmdSet}})
+All == SetToSeq({<<s, c>> \in Streams \X {x \in Cmds : x.cmd \in CmdSet} : (\E a \in DOMAIN s : s[a] = NR) => c.cmd = "repair"}
+                \cup (IF "repair" \in CmdSet THEN {<<<<0 - q>>, [cmd |-> "split-join-repair", args |-> <<cut>>, sem |-> NoSem]>> : q \in 1..Len(PipeRecs), cut \in PipeCuts} ELSE {}))
 Picked == SelectSeq([j \in 1..Len(All) |-> j], LAMBDA j : (j + (j \div Stride) + (j \div (Stride * Stride))) % Stride = Offset % Stride)
 
 CaseJson(j) ==
   LET x == All[j] IN
-  [id |-> "st" \o ToString(j), fam |-> "stream", recs |-> [q \in 1..Len(x[1]) |-> Recs[x[1][q]]],
+  [id |-> "st" \o ToString(j), fam |-> "stream", recs |-> [q \in 1..Len(x[1]) |-> IF x[1][q] < 0 THEN PipeRecs[0 - x[1][q]] ELSE Recs[x[1][q]]],
    cmd |-> x[2].cmd, args |-> x[2].args, sem |-> x[2].sem]
 
 VARIABLES lo, hi, done
